@@ -23,6 +23,10 @@ C0 = 1000000
 # what the harness process finds when it starts (sigthread_harness.c <inherited>): "" = default dispositions, nothing
 # blocked; i/z = SIGINT/SIGTSTP ignored, I/Z = blocked.  Set by run() around the scenarios that are repeated under each.
 INHERIT = ""
+# the clock the harness process is started at (sigthread_harness.c <clock at start>); set by run() around the scenarios
+# that are repeated at extreme values of time_t.  The property does not depend on it: only the DIFFERENCE between two
+# interrupts matters (Props/C20.lean: decision_depends_on_difference_only)
+CLOCK = C0
 INHERITED = {"ign-both": "iz", "blk-both": "IZ", "ign-int": "i", "ign-tstp": "z", "ign+blk": "izIZ"}
 
 
@@ -44,7 +48,7 @@ class Run:
     def __init__(self, exe, fanout, n, batch=0, S=0):
         er, ew = os.pipe()
         cr, cw = os.pipe()
-        self.p = subprocess.Popen([exe, str(ew), str(cr), str(fanout), str(n), str(batch), str(S), INHERIT or "-"],
+        self.p = subprocess.Popen([exe, str(ew), str(cr), str(fanout), str(n), str(batch), str(S), INHERIT or "-", str(CLOCK)],
                                   stdin=subprocess.DEVNULL, stdout=subprocess.PIPE, stderr=subprocess.PIPE,
                                   pass_fds=(ew, cr), env={"PATH": "/usr/bin:/bin"})
         os.close(ew)
@@ -195,7 +199,11 @@ def sc_single(exe):
     r = setup3(exe)
     try:
         r.kill(signal.SIGINT)
-        r.err_has(LISTED, 2)
+        r.until(lambda: r.status is not None or len(listed(r)) >= 2, "the answer to the single ^C")
+        if r.status is not None:
+            return [("real-threads:single-int-aborted", "a single ^C (the first of the run, clock %d, no -b) was taken for the "
+                     "second one: exit status %s, forwarded %s, stderr %r" %
+                     (CLOCK, r.p.returncode, [e for e in r.events if e.startswith("F")], r.stderr()[-120:]))], r
         out = []
         if sorted(listed(r)) != [("h0", "command in progress"), ("h1", "connecting")]:
             out.append(("real-threads:listing", "single ^C with h0 running, h1 connecting, h2 not started listed %s" % listed(r)))
@@ -219,8 +227,8 @@ def sc_double(exe, gap):
         r.kill(signal.SIGINT)
         r.err_has(LISTED, 2)
         if gap:
-            r.cmd("t%d" % (C0 + gap))
-            r.event("T%d" % (C0 + gap))
+            r.cmd("t%d" % (CLOCK + gap))
+            r.event("T%d" % (CLOCK + gap))
         r.kill(signal.SIGINT)
         out = []
         if gap <= 1:
@@ -253,8 +261,8 @@ def sc_cancel(exe, gap, S=0):
         r.kill(signal.SIGINT)
         r.err_has(LISTED, 2)
         if gap:
-            r.cmd("t%d" % (C0 + gap))
-            r.event("T%d" % (C0 + gap))
+            r.cmd("t%d" % (CLOCK + gap))
+            r.event("T%d" % (CLOCK + gap))
         r.kill(signal.SIGTSTP)
         out = []
         if gap <= 1:
@@ -276,9 +284,10 @@ def sc_cancel(exe, gap, S=0):
             if (rc != 0) != (want != 0):
                 out.append(("real-threads:cancel-rc", "^C ^Z%s: exit status %s" % (" with -S" if S else "", rc)))
         else:
-            r.stops(1)
+            r.until(lambda: r.stopped >= 1 or re.search(r"Canceled \d+ pending", r.stderr()), "the process stopping")
             if re.search(r"Canceled \d+ pending", r.stderr()):
-                out.append(("real-threads:cancel-without-interrupt", "^Z %d s after ^C canceled pending hosts" % gap))
+                return [("real-threads:cancel-without-interrupt", "^Z %d s after ^C (more than INTR_TIME) canceled the pending "
+                         "hosts instead of stopping pdsh" % gap)], r
             os.kill(r.p.pid, signal.SIGCONT)
             rc = finish3(r)
             if rc != 0:
@@ -292,7 +301,10 @@ def sc_lone_tstp(exe):
     r = setup3(exe)
     try:
         r.kill(signal.SIGTSTP)
-        r.stops(1)
+        r.until(lambda: r.stopped >= 1 or re.search(r"Canceled \d+ pending", r.stderr()), "the process stopping")
+        if not r.stopped:
+            return [("real-threads:lone-tstp", "lone ^Z (no ^C before it) canceled the pending hosts instead of stopping pdsh: "
+                     "stderr %r" % r.stderr()[-200:])], r
         out = []
         os.kill(r.p.pid, signal.SIGCONT)
         rc = finish3(r)
@@ -373,10 +385,35 @@ def sc_late(exe):
         return [fail("late", e)], r
 
 
+def sc_epoch(exe):
+    """pdsh started at clock CLOCK <= INTR_TIME (the first two seconds of 1970): last_intr starts at 0, so the first ^C is
+    `within one second of the last one` by the letter of the code and of the model (the decision is a function of
+    now - last_intr alone, last_intr = 0 initially): abort.  Pinned so that the initial value and the comparison stay
+    what the model says they are; not a situation of practical interest."""
+    r = setup3(exe)
+    try:
+        r.kill(signal.SIGINT)
+        r.until(lambda: r.status is not None or len(listed(r)) >= 2, "the answer to the first ^C at clock %d" % CLOCK)
+        if r.status is None:
+            finish3(r)
+            return [("real-threads:epoch-initial-stamp", "first ^C at clock %d (last_intr initially 0, INTR_TIME 1): the model "
+                     "decides by now - last_intr > INTR_TIME alone = abort; the code listed" % CLOCK)], r
+        out = []
+        if r.p.returncode in (0, None) or r.p.returncode < 0 or "F0 2" not in r.events:
+            out.append(("real-threads:abort-status", "first ^C at clock %d: exit status %s, forwarded %s" %
+                        (CLOCK, r.p.returncode, [e for e in r.events if e.startswith("F")])))
+        return out, r
+    except Timeout as e:
+        return [fail("epoch", e)], r
+
+
 SCENARIOS = [("single", lambda x: sc_single(x)), ("double-gap0", lambda x: sc_double(x, 0)), ("double-gap1", lambda x: sc_double(x, 1)),
              ("double-gap2", lambda x: sc_double(x, 2)), ("cancel-gap0", lambda x: sc_cancel(x, 0)),
              ("cancel-gap1", lambda x: sc_cancel(x, 1)), ("cancel-gap2", lambda x: sc_cancel(x, 2)),
-             ("cancel-S", lambda x: sc_cancel(x, 0, S=1)), ("lone-tstp", sc_lone_tstp), ("batch", sc_batch),
+             ("cancel-S", lambda x: sc_cancel(x, 0, S=1)),
+             # the clock set BACK between the two signals (the signed difference is negative = within INTR_TIME; an unsigned
+             # one would be huge; the model's truncated subtraction gives 0: Dsh/SignalsClock.lean c_test_any_order)
+             ("double-back5", lambda x: sc_double(x, -5)), ("cancel-back5", lambda x: sc_cancel(x, -5)), ("lone-tstp", sc_lone_tstp), ("batch", sc_batch),
              ("early", lambda x: sc_early(x, 0)), ("early-batch", lambda x: sc_early(x, 1)), ("late", sc_late)]
 
 
@@ -391,6 +428,17 @@ def attempt(fn, exe, name):
 
 # the property does not depend on what pdsh inherits: the same scenarios under each inherited state of SIGINT/SIGTSTP
 # (batch and interactive; ^C, ^C^C, ^C^Z, lone ^Z)
+# the clock as an input at extreme values: the same scenarios with pdsh started at each of these values of time(NULL)
+# (time_t is 64 bits wide here).  Pairs (first stamp, second stamp) straddle 2^31 and 2^32 with gap 1 (= INTR_TIME:
+# abort / cancel) and gap 2 (report / stop): 2^31-2 -> 2^31, 2^31-1 -> 2^31, 2^32-2 -> 2^32, 2^32-1 -> 2^32.  A first ^C /
+# a lone ^Z is compared with last_intr = 0, i.e. the difference is the full value of the clock.
+FULL = ["single", "double-gap1", "double-gap2", "cancel-gap1", "cancel-gap2", "lone-tstp"]
+AT_CLOCK = [(2 ** 31 - 2, FULL), (2 ** 31 - 1, FULL), (2 ** 31, FULL), (2 ** 31 + 1, ["single", "double-gap1", "lone-tstp"]),
+            (2 ** 32 - 2, FULL), (2 ** 32 - 1, FULL), (2 ** 32, FULL), (2 ** 32 + 1, ["single", "double-gap1", "lone-tstp"]),
+            (2 ** 33, ["single", "double-gap0", "double-gap2", "lone-tstp"]),
+            (0, ["epoch"]), (1, ["epoch"]), (2, ["single", "double-gap1", "cancel-gap1", "lone-tstp"])]
+
+
 UNDER = [("ign-both", ["batch", "single", "double-gap0", "cancel-gap0", "lone-tstp"]),
          ("blk-both", ["batch", "single", "double-gap1", "cancel-gap1", "lone-tstp"]),
          ("ign-int", ["batch", "early-batch"]), ("ign-tstp", ["cancel-gap0"]), ("ign+blk", ["batch", "cancel-gap0"])]
@@ -399,21 +447,25 @@ SPELL = {"i": "SIGINT ignored", "z": "SIGTSTP ignored", "I": "SIGINT blocked", "
 
 def run(ctx):
     """-> (offenders [(signature, what, case)], number of scenarios run, {scenario: outcome})"""
-    global INHERIT
+    global INHERIT, CLOCK
     exe = build(ctx)
     if not exe:
         return [], 0, {}
     offs, dist = [], {}
     slow = 0
-    byname = dict(SCENARIOS)
-    todo = [("", name) for name, _ in SCENARIOS] + [(d, name) for d, names in UNDER for name in names]
-    for disp, name in todo:
+    byname = dict(SCENARIOS + [("epoch", sc_epoch)])
+    todo = [("", name, C0) for name, _ in SCENARIOS] + [(d, name, C0) for d, names in UNDER for name in names] + \
+           [("", name, c) for c, names in AT_CLOCK for name in names]
+    for disp, name, clock in todo:
         fn = byname[name]
         key = name if not disp else "%s@%s" % (name, disp)
+        if clock != C0:
+            key += "@clock=%d" % clock
         if slow >= 2:
             dist[key] = "skipped (two scenarios already ran into the limit)"
             continue
         INHERIT = INHERITED[disp] if disp else ""
+        CLOCK = clock
         try:
             res, r = attempt(fn, exe, name)
             if any(sig.startswith("real-threads:timeout") for sig, _ in res):
@@ -422,7 +474,14 @@ def run(ctx):
                 res, r = attempt(fn, exe, name)
         finally:
             INHERIT = ""
+            CLOCK = C0
         how = ""
+        if clock != C0:
+            how = " [pdsh started with time(NULL) = %d%s: only the difference between the instants of two interrupts " \
+                  "matters, whatever the value of the clock]" % (clock, " = 2^%d%+d" % (
+                      (31, clock - 2 ** 31) if abs(clock - 2 ** 31) < 9 else (32, clock - 2 ** 32) if abs(clock - 2 ** 32) < 9
+                      else (33, clock - 2 ** 33)) if clock > 9 else "")
+            res = [(sig.replace("real-threads:", "real-threads:clock:", 1), what + how) for sig, what in res]
         if disp:
             how = " [pdsh started with %s: a signal that is ignored or blocked when pdsh starts must be handled like any " \
                   "other -- dsh() blocks it everywhere and takes it with sigwait()]" % ", ".join(SPELL[c] for c in INHERITED[disp])
@@ -431,7 +490,7 @@ def run(ctx):
         for sig, what in res:
             offs.append((sig, what, {"harness": "harness/sigthread_harness.c (real dsh.c, real threads and signals, gated "
                                                 "transport, settable clock)", "scenario": name,
-                                     "inherited": INHERITED[disp] if disp else "",
+                                     "inherited": INHERITED[disp] if disp else "", "clock_at_start": clock,
                                      "dialogue": r.log[-60:] if r else None, "stderr": r.stderr()[-600:] if r else None,
                                      "stdout": r.stdout()[-300:] if r else None, "exit": r.p.returncode if r else None}))
     return offs, len(todo), dist
